@@ -1,5 +1,5 @@
 import TxV.Model.BasicFifo
-open TxV TxV.Proto TxV.BasicFifo
+open TxV TxV.Proto TxV.BasicFifo TxV.QueueUtil
 
 /-- driver state: which class, depth, model state of each class -/
 structure DState where
@@ -7,6 +7,8 @@ structure DState where
   depth : Nat
   basic : State
   queue : List Nat
+  ow : List Nat := []
+  or : List Nat := []
 
 /-- protocol:
     `cfg cls=basic depth=5 w=8` → `ok`      (BasicFifo)
@@ -25,8 +27,8 @@ def stepLine (s : DState) (line : String) : DState × String :=
     | some "basic", some d =>
       -- CircularAllocator(0) → `mod_add(·, 0, ·, ·)` → `assert mod > 0` (functions.py:62) at elaboration
       if d == 0 then ({ s with cls := "raised" }, "raise AssertionError")
-      else ({ cls := "basic", depth := d, basic := init d, queue := [] }, "ok")
-    | some "fifo", some d => ({ cls := "fifo", depth := d, basic := init d, queue := [] }, "ok")
+      else ({ cls := "basic", depth := d, basic := init d, queue := [], ow := natListOf t "pw", or := natListOf t "pr" }, "ok")
+    | some "fifo", some d => ({ cls := "fifo", depth := d, basic := init d, queue := [], ow := natListOf t "pw", or := natListOf t "pr" }, "ok")
     | _, _ => ({ s with cls := "" }, "bad-op")
   | some "cyc" =>
     match kv? t "w", nat? t "r" with
@@ -49,6 +51,24 @@ def stepLine (s : DState) (line : String) : DState × String :=
         else if s.cls == "raised" then (s, "-")
         else (s, "bad-op")
     | _, _ => (s, "bad-op")
+  | some "mcyc" =>
+    -- several callers per method: `mcyc w=5,- r=1,1 p=0,1 c=0` (fifo: without p, c)
+    if s.cls == "basic" then
+      match MProto.parseMIn t true with
+      | none => (s, "bad-op")
+      | some mi =>
+        let e := eff s.ow s.or mi
+        let (b', o) := step s.depth s.basic ⟨e.w, e.r, e.p, e.c⟩
+        ({ s with basic := b' },
+         s!"{MProto.showM mi e o.wr o.rd o.pk o.clr true} rdy={showBool o.rrdy} lvl={s.basic.alloc} ri={s.basic.start} wi={s.basic.stop} head={s.basic.rd}")
+    else if s.cls == "fifo" then
+      match MProto.parseMIn t false with
+      | none => (s, "bad-op")
+      | some mi =>
+        let e := eff s.ow s.or mi
+        let (q', o) := specStep s.depth s.queue (fifoIn e.w e.r)
+        ({ s with queue := q' }, s!"{MProto.showM mi e o.wr o.rd o.pk o.clr false} rdy={showBool o.rrdy}{showBool o.wrdy}")
+    else (s, "bad-op")
   | _ => (s, "bad-op")
 
 def main : IO Unit := Proto.run ({ cls := "", depth := 1, basic := init 1, queue := [] } : DState) stepLine
